@@ -457,6 +457,11 @@ def foreign_sources(r):
         {"name": "ünï.txt".encode(), "utf8": True, "method": 8, "data": b"unicode name", "eattr": (0o100751 << 16)},
         {"name": b"empty", "method": 0, "data": b"", "date": 0xFFFF, "time": 0xFFFF},
         {"name": b"caf\x82 \xe1\x9b.txt", "method": 8, "data": b"legacy code page name"},      # CP437, unflagged
+        # names that end in a separator: a "compressed" empty directory (jar-style: size 0, two stored bytes), and entries that carry
+        # content under such a name - a raw copy transfers them like any other entry
+        {"name": b"META-INF/", "method": 8, "data": b"", "eattr": (0o40755 << 16) | 0x10},
+        {"name": b"spool/", "method": 8, "data": b"content under a directory-like name " * 5},
+        {"name": b"bs-tail\\", "method": 0, "data": b"backslash-terminated"},
     ]
     r.shuffle(ents)
     b, v = refzip.build({"entries": ents, "comment": b"foreign"})
@@ -481,7 +486,7 @@ def c14(tier):
         nsrc = g.r.randint(2, 7)
         for k in range(nsrc):
             o = g.opts()
-            src.append(dict(o, op="StartFile", name="s%d/%s" % (k, g.r.choice(["a", "é", "b c"]))))
+            src.append(dict(o, op="StartFile", name="s%d/%s" % (k, g.r.choice(["a", "é", "b c", "dirlike/", "bs\\"]))))
             src.append({"op": "Write", "data": g.payload(big=(tier == "thorough"))})
         src.append({"op": "Finish"})
         fb, fv = foreign_sources(g.r)
@@ -567,7 +572,7 @@ def c13(tier):
         rep.spec_violation(r, cfg)
     # an archive whose entries genuinely need ZIP64 (a > 4 GiB entry, later header offsets beyond 4 GiB; sparse store), appended to:
     # the old entries' central records already carry a ZIP64 record and get another one (AppendRepeatsZip64Record), and must read back
-    run_zip64_subset(rep, wd, tier, ("append-after-4g",) if tier == "quick" else ("append-",), "zip64-append")
+    run_zip64_subset(rep, wd, tier, ("append-after-4g", "append-shrink-across-4g") if tier == "quick" else ("append-",), "zip64-append")
     import refzip
     sd = vlib.seed()
     g = gen_writer.Gen(sd * 86028121 + 13, tier)
@@ -738,8 +743,8 @@ def mc_producer(rep, wd, tier, mutants=PRODUCER_MUTANTS, one_entry_only=False):
         rep.add_mc(r, cfg)
         if r["error"]:
             rep.spec_violation(r, cfg)
-    for bug in mutants:
-        r = vlib.tlc_mc("MC_Producer.tla", "MC_Producer_%s.cfg" % bug, wd, timeout=600, tag="mc-prod-" + bug)
+    rs = vlib.tlc_mc_many([("MC_Producer.tla", "MC_Producer_%s.cfg" % bug, "mc-prod-" + bug) for bug in mutants], wd)
+    for bug, r in zip(mutants, rs):
         found = bool(r["error"]) and "ReaderFaithful" in r["error"]
         rep.neg_controls.append({"spec_mutant": "reader:" + bug, "expected_violation": "ReaderFaithful", "found": found})
         if not found:
@@ -788,6 +793,22 @@ def c03(tier):
     rep.notes["tail_cases_model"] = len(cases)
     rep.notes["tail_cases_materialised"] = len(scs)
     run_reader_scenarios(rep, wd, scs, "tails")
+    # dense sweeps of the size-like parameters of a tail: EVERY prepended length 0..8400 (two 4 KiB blocks and every residue of the
+    # small powers of two) in front of an archive with and without ZIP64 end records, and trailing bytes behind the comment
+    import refzip
+    sw = []
+    for z in (False, True):
+        ents = [{"name": b"sweep/one.txt", "method": 8, "data": b"swept " * 50}, {"name": b"sweep/two", "method": 0, "data": b"2" * 33, "z64": {"off"} if z else set()}]
+        b, v = refzip.build({"entries": ents, "z64end": z, "comment": b"sweep"})
+        top = 8400 if tier == "quick" else 70000
+        d = {"sc": "sweep-prefix-%d" % z, "hex": b.hex(), "expect": gen_reader.expect_of(v), "sweep": {"prefix": [0, top, 1]}}
+        if not z:
+            d["sweep"]["trailing"] = [0, 600, 1]
+            sw.append({"sc": "sweep-trailing-far", "hex": b.hex(), "expect": gen_reader.expect_of(v),
+                       "sweep": {"trailing": [65535 - 5 - 40, 65535 - 5 + 3, 1] if tier == "quick" else [600, 65535, 13]}})
+        sw.append(d)
+    run_reader_scenarios(rep, wd, sw, "sweeps", neg_control=False)
+    rep.notes["sweep_events"] = sum(1 for e in vlib.read_ndjson(os.path.join(wd, "sweeps-trace.ndjson")) if e.get("ev") == "RSweep")
     # Producer.tla: the field-level reader model decodes every layout an independent producer may emit (ReaderFaithful; seven
     # reader mutants found); every realisable archive of the one-entry model, and of the two-entry model (quick: a seeded sample),
     # is materialised by the independent builder and opened by the real reader
@@ -2874,6 +2895,16 @@ def zip64_scenarios(tier, rnd):
         s = writer_sc("append-after-4g", ops, select=[1, 2, 3])
         s["expect"]["sizes"] = [{"i": 1, "usize": _big(sz), "crc": zc.crc(sz, head, tail)}]
         s["read"] = [{"i": 3, "head": 21, "tail": 0, "expect": {"len": _big(21), "head": b"appended beyond 4 GiB".hex(), "tail": ""}}]
+        scs.append(s)
+    # an append whose rewritten directory is SHORTER (a 60 000-byte comment dropped) is moved up to end where the old archive ended;
+    # here that move carries the directory start across 4 GiB, so the ZIP64 end records become necessary only after the move
+    for delta in ((100,) if tier == "quick" else (100, 59000, 60100)):
+        head, tail = b"\x55", b"\x66"
+        sz = T - delta - 53
+        ops = [{"op": "start", "name": "big", "large": True, "method": 0}, {"op": "zeros", "n": sz, "head": head.hex(), "tail": tail.hex()},
+               {"op": "comment", "c": "k" * 60000}, {"op": "finish"}, {"op": "append"}, {"op": "comment", "c": ""}, {"op": "finish"}]
+        s = writer_sc("append-shrink-across-4g-%d" % delta, ops, select=[1])
+        s["expect"]["sizes"] = [{"i": 1, "usize": _big(sz), "crc": zc.crc(sz, head, tail)}]
         scs.append(s)
     # a foreign producer at real sizes: sparse archive, ZIP64 fields in the layouts the specification allows
     import struct
